@@ -45,6 +45,12 @@ def run(ctx):
     f6, pool6 = F.c05_sametext(ctx.tier, rnd)
     agg = run_family("C01F6", f6, sorted(set(pool6) | {"error"}), dev=dev, invariants=INVS, properties=[], perms=(0,), timeout=600)
     ctx.add_family(agg)
+    # F7: statement-subset programs moved into the surroundings the machine models (macro body, slot filler, named
+    # block of a translation, on-error element, repeated element, template-namespace element)
+    per = 8 if quick else 60
+    f7 = [F.in_context(p, how) for how in F.CONTEXTS for p in rnd.sample(f1, per)]
+    agg = run_family("C01F7", f7, NAMES + ["z", "macroname"], dev=dev, invariants=INVS, properties=[], perms=perms[:2], timeout=900)
+    ctx.add_family(agg)
     f5 = F.c01_extras(ctx.tier, rnd)
     agg = run_family("C01F5", f5, NAMES, dev=dev, invariants=INVS, properties=PROPS, perms=perms[:2] if quick else perms[:4],
                      timeout=600)
